@@ -478,6 +478,69 @@ theorem getSearchPosition_nearest_bwd (eq : Char → Char → Bool) (b : Buf) (s
     exact hnb (Or.inr ⟨rfl, by simp only; omega⟩)
 
 
+/-! ## get_search_position = apply_search without the move = k single steps -/
+
+/-- `k` single-step searches applied one after the other -/
+def iterApply (eq : Char → Char → Bool) (sub : Text) (dir : Dir) (incl : Bool) : Nat → Buf → Buf
+  | 0, b => b
+  | k + 1, b => iterApply eq sub dir incl k (applySearch eq b sub dir incl 1)
+
+/-- a repeat count that succeeds is exactly `k` applied single-step searches -/
+theorem applySearch_eq_iter (eq : Char → Char → Bool) (sub : Text) (dir : Dir) (incl : Bool) (k : Nat)
+    (b : Buf) (hwf : BufWF b) (r : Nat × Nat) (h : search eq b sub dir incl k = some r) :
+    applySearch eq b sub dir incl k = iterApply eq sub dir incl k b := by
+  induction k generalizing b r with
+  | zero =>
+    simp only [search, searchN, Option.some.injEq] at h
+    rw [applySearch_eq eq b sub dir incl 0 hwf]
+    simp [search, searchN, iterApply]
+  | succ k ih =>
+    rw [applySearch_count_succ eq b sub dir incl k hwf r h]
+    simp only [iterApply]
+    have h1 := h
+    simp only [search, searchN] at h1
+    cases hs : searchOnce eq b.lines sub dir incl (b.widx, b.cur) with
+    | none => simp [hs] at h1
+    | some p' =>
+      simp only [hs] at h1
+      have hb1 : applySearch eq b sub dir incl 1 = { lines := b.lines, widx := p'.1, cur := p'.2 } := by
+        rw [applySearch_eq eq b sub dir incl 1 hwf]
+        simp [search, searchN_one, hs]
+      have hwf1 : BufWF (applySearch eq b sub dir incl 1) := applySearch_wf eq b sub dir incl 1 hwf
+      exact ih _ hwf1 r (by rw [hb1]; exact h1)
+
+/-- `get_search_position` is `apply_search` without the move: the cursor `apply_search` with the
+    same arguments ends on when it stays in the current entry, the old cursor otherwise -/
+theorem getSearchPosition_eq_apply (eq : Char → Char → Bool) (b : Buf) (sub : Text) (dir : Dir)
+    (incl : Bool) (k : Nat) (hwf : BufWF b) :
+    getSearchPosition eq b sub dir incl k =
+      if (applySearch eq b sub dir incl k).widx = b.widx then (applySearch eq b sub dir incl k).cur
+      else b.cur := by
+  rw [applySearch_eq eq b sub dir incl k hwf]
+  unfold getSearchPosition
+  cases search eq b sub dir incl k with
+  | none => simp
+  | some r =>
+    obtain ⟨i, c⟩ := r
+    by_cases hi : i = b.widx <;> simp [hi]
+
+/-- … hence, for a repeat count that finds something, the position reached by `k` single steps
+    (overlapping occurrences are counted one by one, none between old and new position is skipped) -/
+theorem getSearchPosition_eq_iter (eq : Char → Char → Bool) (b : Buf) (sub : Text) (dir : Dir)
+    (incl : Bool) (k : Nat) (hwf : BufWF b) (r : Nat × Nat) (h : search eq b sub dir incl k = some r) :
+    getSearchPosition eq b sub dir incl k =
+      if (iterApply eq sub dir incl k b).widx = b.widx then (iterApply eq sub dir incl k b).cur
+      else b.cur := by
+  rw [getSearchPosition_eq_apply eq b sub dir incl k hwf, applySearch_eq_iter eq sub dir incl k b hwf r h]
+
+-- 'aa' in "xaaaab": two steps from 0 go 1, 2 (the witness of seeded change C16-j: a single
+-- non-overlapping scan would give 3); three steps in "xaaaaab" reach 3
+example : getSearchPosition eqCS ⟨[['x', 'a', 'a', 'a', 'a', 'b']], 0, 0⟩ ['a', 'a'] .fwd false 2 = 2 ∧
+    (iterApply eqCS ['a', 'a'] .fwd false 2 ⟨[['x', 'a', 'a', 'a', 'a', 'b']], 0, 0⟩).cur = 2 ∧
+    getSearchPosition eqCS ⟨[['x', 'a', 'a', 'a', 'a', 'a', 'b']], 0, 0⟩ ['a', 'a'] .fwd false 3 = 3 ∧
+    getSearchPosition eqCS ⟨[['x', 'a', 'a', 'a', 'a', 'b']], 0, 6⟩ ['a', 'a'] .bwd false 2 = 1 := by decide
+
+
 /-! ## what "occurs" means for the two comparisons the driver uses -/
 
 theorem match_eqCS (a m : Text) : Match eqCS a m ↔ a = m := by
